@@ -456,7 +456,7 @@ impl<N: ComplexField> RungeKuttaCoefficients<6> for RKCoefficients45<N> {
         let thirty_two = Self::RealField::from_u8(32)?;
         let two_one_nine_seven = Self::RealField::from_u16(2197)?;
 
-        Some(BSMatrix::from_vec(vec![
+        Some(BSMatrix::from_row_slice(&[
             // Row 0
             zero.clone(),
             zero.clone(),
@@ -577,7 +577,7 @@ impl<N: ComplexField> RungeKuttaCoefficients<4> for RK23Coefficients<N> {
     fn k_coefficients() -> Option<BSMatrix<Self::RealField, 4, 4>> {
         let zero = Self::RealField::zero();
 
-        Some(BSMatrix::from_vec(vec![
+        Some(BSMatrix::from_row_slice(&[
             // Row 0
             zero.clone(),
             zero.clone(),
